@@ -124,6 +124,9 @@ type refCompiler struct {
 func (p *Program) Expected() *Contract {
 	rc := &refCompiler{c: NewContract()}
 	for _, f := range p.Files {
+		if f.IsDep {
+			continue // not compiled: only a target of references
+		}
 		schemaFile := f.OutPath()
 		rc.c.file(schemaFile, f.Package())
 		if f.IsProto {
